@@ -295,6 +295,19 @@ pub fn pick_idx(sel: u16, len: usize) -> usize {
     ((sel as usize) * len) >> 16
 }
 
+/// serde adapter: Vec<u8> <-> string of chars U+0000..U+00FF (readable for ASCII)
+pub mod latin1 {
+    use serde::{Deserialize, Deserializer, Serializer};
+    pub fn serialize<S: Serializer>(b: &Vec<u8>, s: S) -> Result<S::Ok, S::Error> {
+        let t: String = b.iter().map(|&x| x as char).collect();
+        s.serialize_str(&t)
+    }
+    pub fn deserialize<'de, D: Deserializer<'de>>(d: D) -> Result<Vec<u8>, D::Error> {
+        let t = String::deserialize(d)?;
+        t.chars().map(|c| if (c as u32) < 256 { Ok(c as u32 as u8) } else { Err(serde::de::Error::custom("char above U+00FF in byte string")) }).collect()
+    }
+}
+
 #[cfg(test)]
 mod tests {
     use super::*;
